@@ -534,7 +534,9 @@ class World20:
             self.fe = FrontEnd(self)
             return self
         # which world multivector is behind each draggable slot (top-level position -> mv id)
-        top = effective_top(self.cfg['scene'])
+        # Where the front end finds each top-level subject: `draggable_points_idxs.map(i => canvas.value[i])`
+        # indexes the *decoded subjects*, in which an array-valued multivector takes one place per element.
+        top = expanded_top(self.cfg['scene'], self.cfg['mvs'])
         self.draggable_targets = []
         for j in self.widget.draggable_points_idxs:
             n = top[j] if 0 <= j < len(top) else None
@@ -542,8 +544,9 @@ class World20:
             self.draggable_targets.append(n['id'] if ok else None)
             if bool(n) and n['t'] == 'dep':
                 continue        # a computed multivector at the top level: draggable, but not an original object
-            if not ok and not self.cfg.get('allow_misaligned'):
-                self.violate('W2-draggable-index', expected='every draggable index is the top-level position of a multivector',
+            if not ok:
+                self.violate('W2-draggable-index', expected='every draggable index is the position, in the decoded '
+                             'subjects, of a (non array-valued) multivector of the scene',
                              got=f'index {j} -> {n}')
         self.check_tables()
         self.check_kernel('after creation')
@@ -643,6 +646,25 @@ def effective_top(scene):
             return list(n['of'])
         return [n]
     return scene
+
+
+def expanded_top(scene, mvs):
+    """One entry per place in the decoded top-level subjects."""
+    out = []
+    for n in effective_top(scene):
+        m = n
+        while m['t'] == 'call':
+            m = m['of']
+        if m['t'] == 'mv' and mvs[m['id']].get('shape'):
+            size = 1
+            for x in mvs[m['id']]['shape']:
+                size *= x
+            out.extend([{'t': 'element', 'of': m['id']}] * size)
+        elif n['t'] == 'call' and m['t'] == 'mv':
+            out.append({'t': 'callable-mv', 'id': m['id']})     # a callable returning a point is not a point
+        else:
+            out.append(n)
+    return out
 
 
 def _wire_equal(a, b):
